@@ -33,12 +33,22 @@ def main():
     SORT_SHIM = os.path.join(VERIF, 'shims', 'c22_sort.c')
     for fn in ('vf_insertion', 'vf_merge', 'vf_sift'):
         chk.unit('verif:shims/c22_sort.c', fn, sort.CONTRACTS, 'math', 'opaque', abspath=SORT_SHIM)
+    # the comparator that fixes the contact order, and the two order laws the sort relies on as lemmas over its contract
+    chk.unit(FILE, 'contactcompare', {'__defs__': {}, 'contactcompare': filters.CONTACT_COMPARE}, 'math', 'real', check_arith=False)
+    import z3
+    from vlib.symex import Obligation
+    a1, b1, a2, b2, a3, b3 = z3.Ints('a1 b1 a2 b2 a3 b3')
+    lex = lambda p, q, r, t: z3.If(p < r, -1, z3.If(p > r, 1, z3.If(q < t, -1, z3.If(q > t, 1, 0))))
+    chk.add_obligations([
+        Obligation('lemma/contact_order_is_antisymmetric', [], lex(a1, b1, a2, b2) == -lex(a2, b2, a1, b1), 'lemma'),
+        Obligation('lemma/contact_order_is_transitive', [lex(a1, b1, a2, b2) <= 0, lex(a2, b2, a3, b3) <= 0], lex(a1, b1, a3, b3) <= 0, 'lemma'),
+    ], {'function': 'lemma: lexicographic contact order is a total preorder', 'file': 'contracts/filters.py', 'status': 'lemma over contracts'})
     from props import C22
     C22.bounded(chk)        # bounded stand-in for the pass / block composition of mjSORT (same macro text; never counted as proved)
     chk.out_of_reach += ['sweep-and-prune broad phase, BVH mid phase (mj_collideTree), the pass/block composition of mjSORT (bounded stand-in in C22)',
                          'completeness of the whole pair enumeration (every unfiltered pair within margin is reported)']
     chk.assumptions |= {'mjcb_contactfilter (user callback, global function pointer): no effect on verified state, arbitrary answer; the mask clauses are stated for the default (no callback installed)',
-                        'mj_assignMargin is a pure function of its argument (named AM); geom ids, pair ids and geom types in range (model invariants)',
+                        'contactcompare among geom-geom contacts (or among flex contacts): the key of a contact does not depend on the other one; for a geom-geom contact compared with a flex contact the un-swapping is skipped for both (as the code does), so transitivity across the two kinds is not claimed', 'mj_assignMargin is a pure function of its argument (named AM); geom ids, pair ids and geom types in range (model invariants)',
                         'symbolic & of two ints in mathematical-integer mode is the function band32, constrained by facts proved once in bit-vector arithmetic'}
     chk.assumptions.add('geometric filters proved over the reals (rounding of the sums is not modelled)')
     return chk.finish()
